@@ -54,6 +54,12 @@ class PubSub:
             O.start_at(st_o)
         elif p["prior"] == "other-object-at-the-same-time":
             O = H.new_ao("O", st_o)         # started, subscribes from another thread while S subscribes
+        O2 = None
+        if p.get("pub_during"):
+            # two objects are already subscribed and a publication is being delivered to them while S subscribes
+            O2 = H.new_ao("O2", H.make_state(name="o2_state", spied=False), start=False)
+            O2.subscribe(Event(signal="P"), queue_type=kind)
+            O2.start_at(H.make_state(name="o2_state", spied=False))
         s.settle()
         if p.get("pub_before"):
             # the signal has already been published (and delivered to the earlier subscriber) before S subscribes
@@ -72,7 +78,18 @@ class PubSub:
                 s.open_window()
             racer = sched.CThread(target=lambda: O.subscribe(Event(signal="P"), queue_type=kind), name="racer")
             racer.start()
-        if p["sub"] == "before-start":
+        if p.get("pub_during"):
+            S.start_at(st_s)
+            s.settle()
+            s.open_window()
+            B.publish(Event(signal="P", payload="during"))     # not settled: the delivery threads are at work
+            if p["sub"] == "after-start":
+                S.subscribe(Event(signal="P"), queue_type=kind)
+            else:
+                S.post_fifo(Event(signal="SUBME", payload="go"))
+            s.settle()
+            s.window = False        # the race is over: what follows runs under the default schedule
+        elif p["sub"] == "before-start":
             S.subscribe(Event(signal="P"), queue_type=kind)
             S.start_at(st_s)
         elif p["sub"] == "after-start":
@@ -109,7 +126,11 @@ class PubSub:
 
         def got(name):
             return [x[5] for x in s.log if x[3] == "rtc-begin" and x[4] == name and x[5] == "P/pub"]
+        def got_during(name):
+            return len([x for x in s.log if x[3] == "rtc-begin" and x[4] == name and x[5] == "P/during"])
         return {"S": len(got("S")), "O": len(got("O")) if O is not None else None, "B": len(got("B")), "P": len(got("P")),
+                "O2": len(got("O2")) if O2 is not None else None,
+                "during": {n: got_during(n) for n in ("S", "O", "O2", "B", "P")} if p.get("pub_during") else None,
                 "registry": {k: {sig: len(v) for sig, v in sorted(r.items())} for k, r in
                              (("fifo", S.fabric.fifo_subscriptions), ("lifo", S.fabric.lifo_subscriptions))},
                 "alive": sorted(t.name for t in s.threads if t.started and not t.finished and t.name in ("S", "P", "B", "O")),
@@ -137,6 +158,16 @@ class PubSub:
         if o["O"] not in (None, 1):
             out.append(("%s/prior-subscriber-%s" % (PID, "missed" if o["O"] < 1 else "duplicate"),
                         "the object that had subscribed earlier dispatched the publication %d times (config %r)" % (o["O"], p)))
+        if o.get("O2") not in (None, 1):
+            out.append(("%s/prior-subscriber-%s" % (PID, "missed" if o["O2"] < 1 else "duplicate"),
+                        "the second object that had subscribed earlier dispatched the publication %d times (config %r)" % (o["O2"], p)))
+        d = o.get("during")
+        if d:
+            # the publication that was being delivered while S subscribed: owed to the two earlier subscribers exactly once,
+            # S may or may not see it, nobody else does
+            if d["O"] != 1 or d["O2"] != 1 or d["S"] > 1 or d["B"] or d["P"]:
+                out.append(("%s/publication-in-flight" % PID, "a publication being delivered while another object subscribed was dispatched "
+                            "%r times (earlier subscribers O and O2 are owed exactly one each; config %r)" % (d, p)))
         if o["B"] != 0 or o["P"] != 0:
             out.append(("%s/stray" % PID, "objects that never subscribed dispatched the publication: bystander %d, publisher %d (config %r)" % (
                 o["B"], o["P"], p)))
@@ -179,6 +210,11 @@ def params(tier):
     for sub in ("after-start", "in-handler", "before-start"):
         for kind in ("fifo", "lifo"):
             extra.append({"spied_s": True, "spied_p": True, "sub": sub, "pub": "outside", "prior": "other-object-at-the-same-time",
+                          "kind": kind, "bound": 1 if q else 2})
+    # a publication is being delivered to two earlier subscribers while the subscription is made
+    for sub in ("after-start", "in-handler"):
+        for kind in ("fifo", "lifo"):
+            extra.append({"spied_s": True, "spied_p": True, "sub": sub, "pub": "outside", "prior": "other-object", "pub_during": True,
                           "kind": kind, "bound": 1 if q else 2})
     if not q:
         sel += [dict(p, bound=2, window="publish") for p in ps if p["kind"] == "lifo" and p["spied_s"] and p["spied_p"]
